@@ -172,6 +172,7 @@ func (w *World) leadersNow() (ls []string, toks []string) {
 type recLogger struct{ in *Inst }
 
 func (l *recLogger) log(level, msg string) {
+	l.in.w.point("Logger."+msg, l) // a user-supplied logger is a scheduling point too (fine mode)
 	if l.in.w.verbose {
 		l.in.w.evL(Ev{K: "log", I: l.in.spec.ID, S: level + ":" + msg})
 	}
